@@ -61,7 +61,7 @@ func main() {
 		r.Assume("'no tick is sent after Stop returns' is refuted only by a tick whose own timestamp (taken inside the callback before the send) is later than a stamp taken after Stop returned; a tick that was already in the 1-slot channel is legitimate")
 		r.Assume("drain-then-silence: when Stop returns the 1-slot channel holds at most one tick; after it has been taken out, any further tick received from that ticker was sent after Stop returned, whatever timestamp it carries (also: two or more ticks received after Stop returned)")
 		r.Assume("regime rule: a tick stamped T is legitimate only if some New/Reset call (begun at b, with d and jitter) has b + (d - jitter) <= T and the call that closed that regime (the next Reset or Stop) had not yet returned at T; this covers ticks after Stop, ticks too early after a Reset (measured from before the Reset call), and Reset after Stop (the ticker runs again with the new period)")
-		r.Assume("{Stop, Stop} is not generated: a second Stop without a Reset in between is outside the statement (on this tree it dereferences a nil timer)")
+		r.Assume("Stop on a stopped ticker ({Stop, Stop}, also on a fresh ticker, and followed by Reset) must not panic and must leave the ticker usable: the call after a double Stop runs under the goroutine-dump verdict (parked on the ticker's mutex for good = violation)")
 		r.Assume("that ticks keep arriving at all (liveness) is not part of the statement: a phase that sees no tick for 5 s is counted, not judged")
 
 		for _, g := range []struct {
@@ -87,6 +87,7 @@ func main() {
 		r.Floor("near d, rule (i): calls begun with the deadline >= d away", r.Table("near", "calls begun with the deadline >= d away that did not answer DeadlineTooSoonError (a prompt one would have been refuted)"), 1000)
 		r.Floor("control sequences run while the timer callback was held at ticker.fire", r.Table("seq", "sequences run while the callback was held at ticker.fire"), 1000)
 		r.Floor("tickers left stopped / Reset to 1h by a control sequence and looked at again", r.Table("seq", "tickers (stopped / Reset to 1h) looked at again >= 3 ms after the drain"), 1000)
+		r.Floor("control sequences with a Stop on a stopped ticker", r.Table("seq", "sequences with a Stop on a stopped ticker"), 300)
 		r.Floor("pool rounds (SleepContext ended at d+-30us, then plain sleeps)", r.Table("pool", "rounds"), 2000)
 		r.Floor("lagging-receiver tickers stopped at the second firing and looked at again", r.Table("lag", "stopped tickers looked at again >= 20 ms after the drain"), 5000)
 		r.Floor("JitterTicker lives with d >= MaxInt64/4", r.Table("ticker", "lives with d >= MaxInt64/4"), 8)
@@ -659,7 +660,7 @@ func regress(r *vkit.Report) {
 }
 
 // ---------------------------------------------------------------------------------------------
-// Observed, outside the statement: a second Stop.
+// A second Stop on a stopped ticker (judged since /repo 7421ed4).
 
 func outside(r *vkit.Report) {
 	r.Cases("outside", 1, 1, func(c *vkit.Case) {
@@ -670,12 +671,11 @@ func outside(r *vkit.Report) {
 		if p := vkit.Try(tk.Stop); p != nil {
 			return
 		}
-		// The second Stop is outside the statement (and leaves the ticker's mutex locked when it
-		// panics; the ticker is dropped here).
+		r.Eval(1)
 		if p := vkit.Try(tk.Stop); p != nil {
-			r.Count("outside the statement / lenient (not judged)", "second Stop panicked: "+p.Msg, 1)
-		} else {
-			r.Count("outside the statement / lenient (not judged)", "second Stop returned", 1)
+			c.Violation("stop-panics", "NewJitterTicker(1h, 1m), Stop(), Stop(): the second Stop panicked: "+p.Msg, map[string]any{"panic": p.Msg, "frame": p.JuniperFrame()})
+			return
 		}
+		r.Count("ticker", "second Stop on a stopped ticker returned", 1)
 	})
 }
